@@ -170,48 +170,37 @@ def r09_2(ctx):
 
 
 def _vertices_rule(ctx, out):
-    """vertices: nested loop over every segment and every control point; append guarded by an identity test"""
+    """vertices on an abstract curve (W): two distinct control points at the same position must both be listed, a
+    junction point shared by two segments once, in first-occurrence order.  Decided on the outcome of the abstract
+    run, so any loop / comprehension / set idiom is accepted."""
+    from verifkit.absrun import Obj, Runner
+    from verifkit.finite import Raised, Undecided
+    from rules.C16 import PV
     fn = ctx.fn("jordancurve.JordanCurve.vertices")
-    inf = ctx.typer.of(fn)
-    selfn = fn.params[0]
-    outer = [lp for lp in pat.loops(fn) if isinstance(lp.iter, ast.Attribute) and pat.is_name(lp.iter.value, selfn)
-             and any(g.endswith(".segments") for g in pat.getter_of(inf, lp.iter))]
-    if len(outer) != 1 or pat.has_early_exit(outer[0]):
-        out.bad(fn.qname, "does not loop over every element of self.segments", where=fn.where())
+    a, b, c = PV(0, 0), PV(4, 0), PV(0, 3)
+    twin = PV(4, 0)             # a distinct control point at the same coordinates as b
+    m1, m2 = PV(3, 3), PV(-1, 1)      # interior control points of the later segments (lost if a segment is skipped)
+    J = Obj("J", segments=(Obj("s0", ctrlpoints=(a, twin, b)), Obj("s1", ctrlpoints=(b, m1, c)),
+                           Obj("s2", ctrlpoints=(c, m2, a))))
+    try:
+        got = list(Runner(ctx, set(), None).call_fn(fn, [J]))
+    except (Undecided, Raised) as ex:
+        out.undecided(fn.qname, str(ex), where=fn.where())
         return
-    seg = outer[0].var
-    inner = [lp for lp in pat.loops(fn) if isinstance(lp.iter, ast.Attribute) and pat.is_name(lp.iter.value, seg)
-             and lp.iter.attr == "ctrlpoints"]
-    if len(inner) != 1 or pat.has_early_exit(inner[0]):
-        out.bad(fn.qname, "does not loop over every control point of each segment", where=fn.where())
-        return
-    pt = inner[0].var
-    # dedup: the append of the point is guarded by `id(point) not in ids` (or `not any(p is q ...)`)
-    guards = [n for n in ast.walk(inner[0].node) if isinstance(n, ast.If)]
-    appended = False
-    by_identity = False
-    for g in guards:
-        t = g.test
-        tt, neg = pat._strip_not(t)
-        uses_id = any(isinstance(x, ast.Call) and isinstance(x.func, ast.Name) and x.func.id == "id"
-                      and x.args and pat.is_name(x.args[0], pt) for x in ast.walk(tt)) \
-            or any(isinstance(x, ast.Compare) and any(isinstance(o, (ast.Is, ast.IsNot)) for o in x.ops) for x in ast.walk(tt))
-        for b in ast.walk(g):
-            if isinstance(b, ast.Call) and isinstance(b.func, ast.Attribute) and b.func.attr == "append" \
-                    and b.args and pat.is_name(b.args[0], pt):
-                appended = True
-                by_identity = by_identity or uses_id
-    unguarded = [b for b in inner[0].body if isinstance(b, ast.Expr) and isinstance(b.value, ast.Call)
-                 and isinstance(b.value.func, ast.Attribute) and b.value.func.attr == "append"]
-    if unguarded:
+    ids = [id(x) for x in got]
+    want = [id(x) for x in (a, twin, b, m1, c, m2)]
+    detail = f"got {got} for control points a,twin(b),b | b,m1,c | c,m2,a"
+    if ids == want:
+        out.ok(fn.qname, "every control point of every segment, de-duplicated by id(), order kept", where=fn.where())
+    elif len(ids) != len(set(ids)):
         out.bad(fn.qname, "control points are collected without de-duplication (shared junction points would be "
-                          "transformed twice)", where=fn.where(unguarded[0]))
-    elif not appended:
-        out.undecided(fn.qname, "vertex collection idiom not recognised", where=fn.where())
-    elif not by_identity:
-        out.bad(fn.qname, "vertices de-duplicated by value, not by object identity", where=fn.where())
+                          "transformed twice)", where=fn.where(), detail=detail)
+    elif set(want) - set(ids) == {id(twin)} or set(want) - set(ids) == {id(b)}:
+        out.bad(fn.qname, "vertices de-duplicated by value, not by object identity", where=fn.where(), detail=detail)
+    elif set(want) - set(ids):
+        out.bad(fn.qname, "does not list every control point of every segment", where=fn.where(), detail=detail)
     else:
-        out.ok(fn.qname, "every control point of every segment, de-duplicated by id()", where=fn.where())
+        out.bad(fn.qname, "vertex list is not [each control point object once, in order]", where=fn.where(), detail=detail)
 
 
 def r09_3(ctx):
